@@ -8,6 +8,15 @@ def batchOp (op : String) (j : Json) : Except String Json := do
   | "batch.collect" =>
     let outs ← jList (jOpt (jList jStr)) (← jField j "outcomes")
     return okJ (Json.arr ((collect outs).map Json.str).toArray)
+  | "batch.files" =>
+    -- the output files of a batch run with the save option: `jobs` = (output path, content a clean run writes | null for a
+    -- failing input) in processing order, `fs` = the files present before the run
+    let overwrite ← jBool (← jField j "overwrite")
+    let jobs ← jList (jPair jStr (jOpt jStr)) (← jField j "jobs")
+    let fs ← jList (jPair jStr jStr) (← jField j "fs")
+    let out := batchFiles overwrite jobs fs
+    let paths := (out.map Prod.fst).foldl (fun acc p => if acc.contains p then acc else acc ++ [p]) ([] : List String)
+    return okJ (Json.arr (paths.map (fun p => Json.arr #[Json.str p, Json.str ((fsGet out p).getD "")])).toArray)
   | _ => .error s!"unknown op {op}"
 
 end E3fpVerif
